@@ -18,7 +18,7 @@ THEOREMS = [
     'Pfst.C17.search_eq_filter', 'Pfst.C17.search_eq_filter_all', 'Pfst.C17.search_events', 'Pfst.C17.enter_events_are_walk',
     'Pfst.C17.list_regex_partial', 'Pfst.C17.list_regex_false_reentry',
 ]
-RULE = ('LIST: pattern sequences over {a, b, ..., M(t=...), M(t=a), MTAG(t)} x quantifier {*, +, ?, {1,2}} x greedy/non-greedy x '
+RULE = ('LIST: pattern sequences over {a, b, ..., M(t=...), M(t=a), MTAG(t), MAND(..., t1=M(t0=...)), MOR(t1=M(t0=a), t2=b)} x quantifier {*, +, ?, {1,2}} x greedy/non-greedy x '
         '(single | sublist body, 11 sublist bodies incl. inner quantifiers): all sequences of length <= 2 (thorough; '
         'sampled in quick), sampled length 3, plus random wider patterns (nested sublists, tagged quantifiers, static '
         'tags, {m,n} up to 3, three tags) — each against ALL 364 element sequences over {a,b,c} of length <= 5, as FST '
@@ -203,6 +203,9 @@ _FIXED_WITNESSES = [
     [['ql', L.q(1, 2), [_A, ['qs', L.q(0, None), ['lit', 1]]]], _B],             # F3: (?:ab*){1,2}b on abb
     [['qs', L.q(0, 2, True, None, [(5, 1)]), ['cap', 0, ['any']]], _B, _C],      # (fixed F4) static tags
     [['e', ['cap', 0, ['any']]], ['qs', L.q(0, None, False), ['any']], ['qs', L.q(1, 2, True, 1), ['ref', 0]], _B],
+    # .*?(?P<k>(?P<v>.))(?P=v).* : a back-reference to a capture made inside a keyword member of MAND
+    [['qs', L.q(0, None, False), ['any']], ['e', ['and2', None, ['any'], 1, ['cap', 0, ['any']]]], ['e', ['ref', 0]], ['qs', L.q(0, None), ['any']]],
+    [['e', ['or2', 1, ['cap', 0, ['lit', 0]], 2, ['cap', 0, ['any']]]], ['qs', L.q(1, None), ['ref', 0]]],
 ]
 
 
